@@ -43,6 +43,10 @@ type c16Step struct {
 	isReward    bool
 	retLen      uint64
 	suicided    bool
+	st          []*big.Int // the top (up to 7) stack items before the step, st[0] = top
+	memBefore   int        // words of memory before the step (tracked from memory.Len() of earlier steps of the frame)
+	memAfter    int        // memory.Len()/32 at capture time (after Resize when the gas stage passed)
+	bits        [3]bool    // slotEmpty (SSTORE), beneficiaryNew (SELFDESTRUCT), calleeNew (CALL with value)
 	wt          []int // ChangeLogTypes pushed by this step (observed when the next step is in the same frame)
 	jabs        int   // absolute journal length before the step
 	prun        string // pure precompile: outcome of running it independently ("ok"/"err"/"")
@@ -65,6 +69,8 @@ type c16Tracer struct {
 	bPaddr       uint64
 	bReward      bool
 	badDepth     string
+	curMem       map[int]int     // depth -> words of memory of the live frame at that depth
+	lastDepth    int
 	destructed   map[string]bool // accounts (dump key) that executed SELFDESTRUCT
 	prePanic     string
 	prePanicSig  string
@@ -224,8 +230,30 @@ func (t *c16Tracer) CaptureState(env *vm.EVM, pc uint64, op vm.OpCode, gas, cost
 	if len(data) > 0 {
 		s.top = new(big.Int).Set(data[len(data)-1])
 	}
+	for i := 0; i < 7 && i < len(data); i++ {
+		s.st = append(s.st, new(big.Int).Set(data[len(data)-1-i]))
+	}
+	if t.curMem == nil {
+		t.curMem = map[int]int{}
+	}
+	if depth > t.lastDepth {
+		t.curMem[depth] = 0 // a new frame
+	}
+	t.lastDepth = depth
+	s.memBefore = t.curMem[depth]
+	s.memAfter = memory.Len() / 32
+	t.curMem[depth] = s.memAfter
 	b := byte(op)
 	self := contract.GetAddress()
+	switch {
+	case b == opSSTORE && len(data) >= 2:
+		v, e := t.am.GetAccount(self).GetStorageState(common.BigToHash(data[len(data)-1]))
+		s.bits[0] = e == nil && len(v) == 0
+	case b == opSELFDESTRUCT && len(data) >= 1:
+		s.bits[1] = t.am.GetAccount(common.BigToAddress(data[len(data)-1])).IsEmpty() && t.am.GetAccount(self).GetBalance().Sign() != 0
+	case b == opCALL && len(data) >= 3:
+		s.bits[2] = t.am.GetAccount(common.BigToAddress(data[len(data)-2])).IsEmpty()
+	}
 	switch {
 	case isCallFamily(b):
 		need := 6
@@ -412,11 +440,12 @@ func (t *c16Tracer) emit(c *Ctx, cs *c16Case, res c16Result) {
 		if i+1 < len(t.steps) {
 			next = &t.steps[i+1]
 		}
-		cost := s.cost
-		gasErr := s.err == "oog" && s.cost <= s.gas
-		if isCallFamily(s.op) {
-			if s.cost >= s.temp {
-				cost = s.cost - s.temp
+		c16CheckGas(c, cs, s)
+		// by construction: a CREATE whose target address exists fails, pushes 0 and loses everything it handed over
+		if s.op == opCREATE && s.callee == "collision" && s.err == "" && s.fault == "" && s.canTransfer && s.depth <= int(params.CallCreateDepth) && next != nil {
+			after := s.gas - s.cost
+			if next.depth != s.depth || next.top == nil || next.top.Sign() != 0 || next.gas != after/64 {
+				c.Fail("c16/create-collision-not-refused", fmt.Sprintf("CREATE at pc %d onto an existing account: expected result 0 and %d gas left, the next step runs at depth %d with gas %d", s.pc, after/64, next.depth, next.gas), cs)
 			}
 		}
 		var wt []int
@@ -453,12 +482,18 @@ func (t *c16Tracer) emit(c *Ctx, cs *c16Case, res c16Result) {
 				c.Count("pre-indep:" + s.prun + "/reported=" + fmt.Sprint(spok))
 			}
 		}
-		req := "0"
-		if s.req != nil {
-			req = s.req.String()
+		stS := "-"
+		if len(s.st) > 0 {
+			var p []string
+			for _, v := range s.st {
+				p = append(p, v.String())
+			}
+			stS = strings.Join(p, ",")
 		}
-		line := fmt.Sprintf("s %d %d %d %d %d %d %s %d %d %s %d %s %d %d %d %s", s.op, s.stackLen, cost, b01(s.err == "gasoverflow"), b01(gasErr), b01(s.fault == "exec"),
-			c16Tags(wt), s.retLen, b01(s.value), req, b01(s.canTransfer), s.callee, s.paddr, s.preq, b01(spok), sptags)
+		// everything the model is told about the step: opcode, stack height, the operands themselves, whether
+		// `execute` failed, the change-log types of a writing instruction, three account facts and the callee
+		line := fmt.Sprintf("s %d %d %d %s %d %d %s %d %d %d %s %d%d%d %s", s.op, s.stackLen, b01(s.fault == "exec"),
+			c16Tags(wt), s.retLen, b01(s.canTransfer), s.callee, s.paddr, s.preq, b01(spok), sptags, b01(s.bits[0]), b01(s.bits[1]), b01(s.bits[2]), stS)
 		verdict := "ok"
 		switch {
 		case s.err != "":
@@ -468,7 +503,10 @@ func (t *c16Tracer) emit(c *Ctx, cs *c16Case, res c16Result) {
 		case s.fault != "":
 			verdict = "err:exec"
 		}
-		out := fmt.Sprintf("%d %d %d %d %s", s.depth, s.gas, b01(s.ro), s.jlen, verdict)
+		out := fmt.Sprintf("%d %d %d %d %s mw=%d", s.depth, s.gas, b01(s.ro), s.jlen, verdict, s.memAfter)
+		if verdict == "ok" || verdict == "revert" || verdict == "err:exec" {
+			out += fmt.Sprintf(" cost=%d", s.cost)
+		}
 		if verdict == "ok" && isCallFamily(s.op) {
 			child := s.temp
 			if s.value && (s.op == opCALL || s.op == opCALLCODE) {
@@ -519,6 +557,7 @@ func orNone(s string) string {
 func c16EmitTable(c *Ctx, w *c16World) {
 	am := account.NewManager(w.genesis, w.db)
 	tab := vm.VerifJumpTable(am, w.eoa)
+	c16Tab = tab
 	type kv struct {
 		k string
 		v uint64
@@ -540,6 +579,11 @@ func c16EmitTable(c *Ctx, w *c16World) {
 		{"logBalance", uint64(account.BalanceLog)},
 		{"logCode", uint64(account.CodeLog)},
 		{"logEvent", uint64(account.AddEventLog)},
+		{"memoryGas", params.MemoryGas},
+		{"quadCoeffDiv", params.QuadCoeffDiv},
+		{"memLimit", c16MemLimit},
+		{"expByteGas", params.DefaultGasTable.ExpByte},
+		{"sstoreSetGas", params.SstoreSetGas},
 	}
 	for _, p := range ps {
 		c.Op(fmt.Sprintf("param %s %d", p.k, p.v), "ok")
@@ -576,7 +620,7 @@ func c16EmitTable(c *Ctx, w *c16World) {
 		}
 		fmt.Fprint(&sb, p.Addr)
 	}
-	sb.WriteString("]\n\n/-- columns: valid minStack maxStack writes halts reverts jumps returns hasMem minGas constGas -/\ndef rows : List OpInfo := [\n")
+	sb.WriteString("]\n\n/-- columns: valid minStack maxStack writes halts reverts jumps returns hasMem minGas constGas mem memGas2 memGas1024 dyn -/\ndef rows : List OpInfo := [\n")
 	valid := 0
 	for i, o := range tab {
 		if o.Valid {
@@ -585,7 +629,38 @@ func c16EmitTable(c *Ctx, w *c16World) {
 				c.Fail("c16/table-probe", fmt.Sprintf("opcode 0x%x: stack interval=%v gas probe ok=%v", i, o.StackInterval, o.GasProbeOK), nil)
 			}
 		}
-		c.Op(fmt.Sprintf("op %d %d %d %d %d %d %d %d %d %d %d %d", i, b01(o.Valid), o.MinStack, o.MaxStack, b01(o.Writes), b01(o.Halts), b01(o.Reverts), b01(o.Jumps), b01(o.Returns), b01(o.HasMem), o.MinGas, b01(o.ConstGas)), "ok")
+		memS, memL := "-", "[]"
+		if len(o.MemRanges) > 0 {
+			var ps, pl []string
+			for _, r := range o.MemRanges {
+				if r.SizeSlot >= 0 {
+					ps = append(ps, fmt.Sprintf("%d:s%d", r.Off, r.SizeSlot))
+					pl = append(pl, fmt.Sprintf("⟨%d, some %d, 0⟩", r.Off, r.SizeSlot))
+				} else {
+					ps = append(ps, fmt.Sprintf("%d:c%d", r.Off, r.ConstSize))
+					pl = append(pl, fmt.Sprintf("⟨%d, none, %d⟩", r.Off, r.ConstSize))
+				}
+			}
+			memS, memL = strings.Join(ps, ";"), "["+strings.Join(pl, ", ")+"]"
+		}
+		dynS, dynL := "-", ".none"
+		switch {
+		case !o.Valid:
+		case o.PerWord > 0:
+			dynS, dynL = fmt.Sprintf("w:%d:%d", o.DynSlot, o.PerWord), fmt.Sprintf(".words %d %d", o.DynSlot, o.PerWord)
+		case o.PerByte > 0:
+			dynS, dynL = fmt.Sprintf("b:%d:%d", o.DynSlot, o.PerByte), fmt.Sprintf(".bytes %d %d", o.DynSlot, o.PerByte)
+		case i == opEXP:
+			dynS, dynL = "exp", ".exp"
+		case i == opSSTORE:
+			dynS, dynL = "sstore", ".sstore"
+		case i == opSELFDESTRUCT:
+			dynS, dynL = "suicide", ".suicide"
+		}
+		if o.Valid && o.HasMem && !o.MemRangesOK {
+			c.Fail("c16/table-probe", fmt.Sprintf("opcode 0x%x: the memory ranges recovered from memorySize do not reproduce it", i), nil)
+		}
+		c.Op(fmt.Sprintf("op %d %d %d %d %d %d %d %d %d %d %d %d %s %d %d %s", i, b01(o.Valid), o.MinStack, o.MaxStack, b01(o.Writes), b01(o.Halts), b01(o.Reverts), b01(o.Jumps), b01(o.Returns), b01(o.HasMem), o.MinGas, b01(o.ConstGas), memS, o.MemGas2, o.MemGas1024, dynS), "ok")
 		sep := ","
 		if i == 255 {
 			sep = ""
@@ -593,7 +668,7 @@ func c16EmitTable(c *Ctx, w *c16World) {
 		if !o.Valid {
 			fmt.Fprintf(&sb, "  OpInfo.invalid%s -- 0x%02x\n", sep, i)
 		} else {
-			fmt.Fprintf(&sb, "  ⟨true, %d, %d, %v, %v, %v, %v, %v, %v, %d, %v⟩%s -- 0x%02x %s\n", o.MinStack, o.MaxStack, o.Writes, o.Halts, o.Reverts, o.Jumps, o.Returns, o.HasMem, o.MinGas, o.ConstGas, sep, i, vm.OpCode(i).String())
+			fmt.Fprintf(&sb, "  ⟨true, %d, %d, %v, %v, %v, %v, %v, %v, %d, %v, %s, %d, %d, %s⟩%s -- 0x%02x %s\n", o.MinStack, o.MaxStack, o.Writes, o.Halts, o.Reverts, o.Jumps, o.Returns, o.HasMem, o.MinGas, o.ConstGas, memL, o.MemGas2, o.MemGas1024, dynL, sep, i, vm.OpCode(i).String())
 		}
 	}
 	sb.WriteString("]\n\ndef table : Table := { params := params, rows := rows }\n\nend LemoModel.EvmTable\n")
